@@ -61,7 +61,7 @@ pub fn child_main(prop: &str, tier: Tier, seed: u64, out: &Path, hb_dir: &Path, 
     let threads = jobs();
     let counter = AtomicU64::new(0);
     let stop = AtomicBool::new(false);
-    let viols: Mutex<Vec<Viol>> = Mutex::new(Vec::new());
+    let viols: Mutex<Vec<(u64, Viol)>> = Mutex::new(Vec::new());
     let viol_total = AtomicU64::new(0);
     let nondet: Mutex<Vec<u64>> = Mutex::new(Vec::new());
     let merged: Mutex<Stats> = Mutex::new(Stats::default());
@@ -120,9 +120,12 @@ pub fn child_main(prop: &str, tier: Tier, seed: u64, out: &Path, hb_dir: &Path, 
                             let mut g = viols.lock().unwrap();
                             for v in vs {
                                 // keep a few per signature
+                                // keep a varied sample: at most 40 per signature, at most 2 from one case description
                                 let sig = v.signature();
-                                if g.iter().filter(|x| x.signature() == sig).count() < 6 {
-                                    g.push(v);
+                                let same_sig = g.iter().filter(|x| x.1.signature() == sig).count();
+                                let same_case = g.iter().filter(|x| x.1.signature() == sig && x.0 == idx).count();
+                                if same_sig < 40 && same_case < 2 {
+                                    g.push((idx, v));
                                 }
                             }
                             if n > 20_000 {
@@ -145,7 +148,7 @@ pub fn child_main(prop: &str, tier: Tier, seed: u64, out: &Path, hb_dir: &Path, 
         n_nontrivial: stats.nontrivial.len() as u64,
         n_schedules: stats.schedules.len() as u64,
         stats,
-        viols: viols.into_inner().unwrap(),
+        viols: viols.into_inner().unwrap().into_iter().map(|x| x.1).collect(),
         viol_total: viol_total.load(Ordering::Relaxed),
         nondeterministic: nondet.into_inner().unwrap(),
         wall_s: t0.elapsed().as_secs_f64(),
@@ -513,6 +516,7 @@ pub fn check_main(prop: &str, tier: Tier) -> i32 {
     let mut known_hits: BTreeMap<String, u32> = BTreeMap::new();
     let mut harness_error = false;
     let mut seen_min: std::collections::BTreeSet<(String, u64)> = Default::default();
+    let mut seen_orig: std::collections::BTreeSet<u64> = Default::default();
     for (sig, vs) in &by_sig {
         // split the signature class by known-finding predicate so that a known finding does not hide others
         let mut reported_unknown = 0;
@@ -528,7 +532,7 @@ pub fn check_main(prop: &str, tier: Tier) -> i32 {
                 }
                 continue;
             }
-            if reported_unknown >= 2 {
+            if reported_unknown >= 8 {
                 continue;
             }
             reported_unknown += 1;
@@ -546,22 +550,23 @@ pub fn check_main(prop: &str, tier: Tier) -> i32 {
                 case: v.case.clone(),
             };
             let _ = std::fs::write(&raw, serde_json::to_vec_pretty(&rf).unwrap());
-            let fin = replays.join(format!("{}-{clause_file}-{digest:016x}.json", v.property));
-            let mut final_path = raw.clone();
+            if !seen_orig.insert(digest) {
+                reported_unknown -= 1;
+                continue;
+            }
+            let min_tmp = run_dir.join(format!("min-{clause_file}-{digest:016x}.json"));
+            let mut min_path = raw.clone();
             if v.clause != "process-abort-or-hang" {
                 let mut c = std::process::Command::new(self_exe());
-                c.arg("shrink").arg(&raw).arg(&fin);
+                c.arg("shrink").arg(&raw).arg(&min_tmp);
                 let (st, _) = run_with_timeout(c, Duration::from_secs(600));
-                if st.map(|s| s.success()).unwrap_or(false) && fin.exists() {
-                    final_path = fin.clone();
+                if st.map(|s| s.success()).unwrap_or(false) && min_tmp.exists() {
+                    min_path = min_tmp.clone();
                 }
             }
-            if final_path == raw {
-                let _ = std::fs::copy(&raw, &fin);
-                final_path = fin.clone();
-            }
             // the minimised case may match a known finding even if the original did not (or vice versa)
-            let min_case: Option<ReplayFile> = std::fs::read(&final_path).ok().and_then(|d| serde_json::from_slice(&d).ok());
+            let min_case: Option<ReplayFile> = std::fs::read(&min_path).ok().and_then(|d| serde_json::from_slice(&d).ok());
+            let mut md = digest;
             if let Some(m) = &min_case {
                 let mv = Viol {
                     property: m.property.clone(),
@@ -577,18 +582,20 @@ pub fn check_main(prop: &str, tier: Tier) -> i32 {
                     if reported_known.insert(k.id.clone(), true).is_none() {
                         println!("KNOWN-FINDING: property={} {} [{}] e.g. {}", mv.property, k.description, k.id, one_line(&mv.detail));
                     }
-                    let _ = std::fs::remove_file(&final_path);
+                    reported_unknown -= 1;
+                    continue;
+                }
+                md = crate::rng::fnv(serde_json::to_string(&m.case).unwrap().as_bytes());
+                if !seen_min.insert((m.clause.clone(), md)) {
                     reported_unknown -= 1;
                     continue;
                 }
             }
-            if let Some(m) = &min_case {
-                let md = crate::rng::fnv(serde_json::to_string(&m.case).unwrap().as_bytes());
-                if !seen_min.insert((m.clause.clone(), md)) {
-                    let _ = std::fs::remove_file(&final_path);
-                    reported_unknown -= 1;
-                    continue;
-                }
+            let final_path = replays.join(format!("{}-{clause_file}-{md:016x}.json", v.property));
+            if std::fs::copy(&min_path, &final_path).is_err() {
+                eprintln!("HARNESS ERROR: cannot write {final_path:?}");
+                harness_error = true;
+                continue;
             }
             // confirm in a fresh process
             if v.clause != "process-abort-or-hang" {
